@@ -45,7 +45,7 @@ def run(run):
     check_trace(run, "edge-cover", "TracePack", "TracePack.cfg", tr)
     sample_trace(run, tr, 8)
     stride, n32, nr = (1, 20000, 4000) if run.thorough() else (9, 2000, 600)
-    tr2 = exec_script(run, exe, [], "Sweep16 %d\nSweep32 %d %d\nRandom %d %d 14\n" % (stride, run.seed, n32, run.seed + 1, nr),
+    tr2 = exec_script(run, exe, [], "Alias\nSweep16 %d\nSweep32 %d %d\nRandom %d %d 14\n" % (stride, run.seed, n32, run.seed + 1, nr),
                       run.path("sweep.ndjson"), "value-sweeps")
     check_trace(run, "value-sweeps", "TracePack", "TracePack.cfg", tr2, timeout=1500)
 
